@@ -46,10 +46,12 @@ func (i *int64Literal) Field(key index.FieldKey) index.Field {
 }
 
 func (i *int64Literal) RangeOpts(isUpper bool, includeLower bool, includeUpper bool) index.RangeOpts {
+	// The implicit bound of a one-sided range is always inclusive: `tag > x` has to match
+	// math.MaxInt64 and `tag < x` has to match math.MinInt64.
 	if isUpper {
-		return index.NewIntRangeOpts(math.MinInt64, i.int64, includeLower, includeUpper)
+		return index.NewIntRangeOpts(math.MinInt64, i.int64, true, includeUpper)
 	}
-	return index.NewIntRangeOpts(i.int64, math.MaxInt64, includeLower, includeUpper)
+	return index.NewIntRangeOpts(i.int64, math.MaxInt64, includeLower, true)
 }
 
 func (i *int64Literal) SubExprs() []LiteralExpr {
@@ -473,10 +475,11 @@ func (t *timestampLiteral) Field(key index.FieldKey) index.Field {
 
 func (t *timestampLiteral) RangeOpts(isUpper bool, includeLower bool, includeUpper bool) index.RangeOpts {
 	nanos := t.timestamp.AsTime().UnixNano()
+	// see int64Literal.RangeOpts: the implicit bound is inclusive.
 	if isUpper {
-		return index.NewIntRangeOpts(math.MinInt64, nanos, includeLower, includeUpper)
+		return index.NewIntRangeOpts(math.MinInt64, nanos, true, includeUpper)
 	}
-	return index.NewIntRangeOpts(nanos, math.MaxInt64, includeLower, includeUpper)
+	return index.NewIntRangeOpts(nanos, math.MaxInt64, includeLower, true)
 }
 
 func (t *timestampLiteral) SubExprs() []LiteralExpr {
